@@ -89,6 +89,7 @@ def check_key_builder(rep: Report, rule: str) -> None:
     ictx = norm.ctx_for(init, subst_locals=False)
     inserts = [n for n in ast.walk(init.node) if isinstance(n, ast.Call) and isinstance(n.func, ast.Attribute) and n.func.attr == "insert_node" and "acquired_lot_avl" in unparse(n.func.value)]
     ok = False
+    lotvar = "?"
     if len(inserts) == 1 and len(inserts[0].args) == 2:
         k = inserts[0].args[0]
         calls = [c for c in ast.walk(k) if isinstance(c, ast.Call) and isinstance(c.func, ast.Attribute) and c.func.attr == "_get_avl_node_key"]
@@ -97,6 +98,27 @@ def check_key_builder(rep: Report, rule: str) -> None:
             lotvar = a0.split(".")[0]
             ok = a0 == f"{lotvar}.timestamp" and a1 == f"{lotvar}.internal_id" and unparse(inserts[0].args[1]).startswith("_AcquiredLotAndIndex(" + lotvar + ",")
     rep.check(ok, rule, init.module, init.qualname, "each lot is inserted under key(lot.timestamp, lot.internal_id) with its own list index", "AccountingEngine.initialize does not insert every lot under the key built from the lot's own timestamp and id, paired with the lot and its list index", loc(init.node))
+    # the index stored with a lot is its position in the lot list: starts at 0, one append and one increment by one per lot, in the same iteration
+    idx_name = None
+    if ok and inserts:
+        second = inserts[0].args[1]
+        if isinstance(second, ast.Call) and len(second.args) == 2 and isinstance(second.args[1], ast.Name):
+            idx_name = second.args[1].id
+    loops_i = [n for n in ast.walk(init.node) if isinstance(n, (ast.While, ast.For)) and inserts and inserts[0] in list(ast.walk(n))]
+    idx_ok = False
+    detail = "index variable not found"
+    if idx_name and loops_i:
+        lp = loops_i[0]
+        inits = [n for n in init.node.body if isinstance(n, (ast.Assign, ast.AnnAssign)) and unparse(n.targets[0] if isinstance(n, ast.Assign) else n.target) == idx_name]
+        incs = [n for n in ast.walk(lp) if isinstance(n, ast.AugAssign) and unparse(n.target) == idx_name] + [n for n in ast.walk(lp) if isinstance(n, ast.Assign) and unparse(n.targets[0]) == idx_name]
+        appends = [n for n in ast.walk(lp) if isinstance(n, ast.Call) and isinstance(n.func, ast.Attribute) and n.func.attr == "append" and "acquired_lot_list" in unparse(n.func.value)]
+        init_ok = len(inits) == 1 and unparse(inits[0].value) == "0"
+        inc_ok = len(incs) == 1 and isinstance(incs[0], ast.AugAssign) and isinstance(incs[0].op, ast.Add) and unparse(incs[0].value) == "1" and incs[0] in lp.body and not any(isinstance(a, ast.If) for a in ancestors(incs[0]) if a is not lp and a in list(ast.walk(lp)))
+        app_ok = len(appends) == 1 and unparse(appends[0].args[0]) == lotvar
+        order_ok = inc_ok and (incs[0].lineno > inserts[0].lineno)
+        idx_ok = init_ok and inc_ok and app_ok and order_ok
+        detail = f"'{idx_name}' starts at {unparse(inits[0].value) if inits else None}, is updated by {[unparse(i) for i in incs]}, list appends: {[unparse(a) for a in appends]}"
+    rep.check(idx_ok, rule, init.module, init.qualname, "the index stored with a lot is its position in the lot list (0-based, +1 per lot, after the insert)", f"{detail}: the AVL lookup returns this index as the upper bound of a disposal's candidates, so it must equal the lot's position in the list the candidates read", loc(init.node))
     # lookup: find_max_value_less_than(key_with_max(taxable_event.timestamp))
     look = prog.func(AE, "AccountingEngine.get_acquired_lot_for_taxable_event")
     rep.analysed(look)
@@ -585,3 +607,75 @@ def _unguarded_seeks(m) -> list:
         if isinstance(n, ast.Call) and isinstance(n.func, ast.Attribute) and n.func.attr == "get_acquired_lot_for_taxable_event":
             out.append((gn.module, gn.qualname, n))
     return out
+
+
+# ---------------------------------------------------------------------------
+# RP2Decimal comparisons: every amount comparison of the matcher, of the guards and of the overdraft test goes through them
+def check_decimal_comparisons(rep: Report, rule: str) -> None:
+    """==, >=, > quantise (self - other) to CRYPTO_DECIMAL_MASK (13 decimals) and compare with ZERO by the same-named Decimal operator;
+    !=, <=, < are their negations.  A coarser mask or a crossed operator changes which fractions are 'equal', which lot is 'larger' and
+    when a balance is 'negative' for every input."""
+    from .consts import fold_module_const
+
+    m = model()
+    prog = m.prog
+    ci = prog.cls("rp2.rp2_decimal", "RP2Decimal")
+    mask = fold_module_const(prog, "rp2.rp2_decimal", "CRYPTO_DECIMAL_MASK")
+    decs = fold_module_const(prog, "rp2.rp2_decimal", "CRYPTO_DECIMALS")
+    import decimal
+
+    mask_ok = isinstance(mask, decimal.Decimal) and isinstance(decs, int) and mask == decimal.Decimal("1." + "0" * decs) and decs >= 11
+    rep.check(mask_ok, rule, ci.module, "CRYPTO_DECIMAL_MASK", "comparison mask = 10^-CRYPTO_DECIMALS with CRYPTO_DECIMALS >= 11", f"CRYPTO_DECIMAL_MASK folds to {mask!r} (CRYPTO_DECIMALS = {decs!r}): amounts with up to 11 decimals must stay distinguishable in comparisons", loc(ci.node))
+    direct = {"__eq__": "__eq__", "__ge__": "__ge__", "__gt__": "__gt__"}
+    negated = {"__ne__": "__eq__", "__le__": "__gt__", "__lt__": "__ge__"}
+    for name, op in direct.items():
+        fi = ci.methods.get(name)
+        rets = [_cmp_shape(n.value) for n in ast.walk(fi.node) if isinstance(n, ast.Return) and n.value is not None] if fi else []
+        want = ("(self - other).quantize(CRYPTO_DECIMAL_MASK)", op, "ZERO")
+        guard = fi is not None and any(isinstance(n, ast.If) and "isinstance(other, Decimal)" in unparse(n.test) and any(isinstance(b, ast.Raise) for b in n.body) for n in ast.walk(fi.node))
+        rep.check(rets == [want] and guard, rule, ci.module, f"RP2Decimal.{name}", f"RP2Decimal.{name} = (self - other).quantize(CRYPTO_DECIMAL_MASK).{op}(ZERO)", f"RP2Decimal.{name} returns {rets}; expected exactly {want} after the operand type check: another mask or operator changes every amount comparison (equal fractions, larger lot, negative balance)", loc(fi.node) if fi else loc(ci.node))
+    for name, base in negated.items():
+        fi = ci.methods.get(name)
+        rets = [unparse(n.value) for n in ast.walk(fi.node) if isinstance(n, ast.Return) and n.value is not None] if fi else []
+        rep.check(rets == [f"not self.{base}(other)"], rule, ci.module, f"RP2Decimal.{name}", f"RP2Decimal.{name} = not {base}", f"RP2Decimal.{name} returns {rets}; expected 'not self.{base}(other)'", loc(fi.node) if fi else loc(ci.node))
+    iw = ci.methods.get("is_equal_within_precision")
+    rets = [_cmp_shape(n.value) for n in ast.walk(iw.node) if isinstance(n, ast.Return) and n.value is not None] if iw else []
+    rep.check(rets == [("(first - second).quantize(precision_mask)", "__eq__", "ZERO")], rule, ci.module, "RP2Decimal.is_equal_within_precision", "is_equal_within_precision = (first - second).quantize(mask) == ZERO", f"is_equal_within_precision returns {rets}", loc(iw.node) if iw else loc(ci.node))
+
+
+def _cmp_shape(e: ast.AST):
+    """(lhs text, dunder name, rhs text) of 'lhs OP rhs' or 'lhs.__op__(rhs)'; the expression text otherwise."""
+    ops = {ast.Eq: "__eq__", ast.NotEq: "__ne__", ast.Gt: "__gt__", ast.GtE: "__ge__", ast.Lt: "__lt__", ast.LtE: "__le__"}
+    if isinstance(e, ast.Compare) and len(e.ops) == 1 and type(e.ops[0]) in ops:
+        return (unparse(e.left), ops[type(e.ops[0])], unparse(e.comparators[0]))
+    if isinstance(e, ast.Call) and isinstance(e.func, ast.Attribute) and e.func.attr in ops.values() and len(e.args) == 1:
+        return (unparse(e.func.value), e.func.attr, unparse(e.args[0]))
+    return unparse(e)
+
+
+# ---------------------------------------------------------------------------
+# partial-amount table accessors of the candidate structures: plain dictionary semantics
+def check_partial_amount_accessors(rep: Report, rule: str) -> None:
+    m = model()
+    prog, norm = m.prog, m.norm
+    ci = prog.cls(AAM, "AbstractAcquiredLotCandidates")
+    table = ("fld", ("sym", "c"), "AbstractAcquiredLotCandidates.__acquired_lot_2_partial_amount")
+    lot = ("sym", "lot")
+    ctx = Ctx(ci.module, ci)
+    args = {"acquired_lot": (lot, ("cls", "rp2.in_transaction:InTransaction"))}
+    has = ci.methods.get("has_partial_amount")
+    t = norm.inline(has, ("sym", "c"), args, ctx) if has else ("unk", "")
+    rep.check(tkey(t) == tkey(("cmp", "in", lot, table)), rule, AAM, "AbstractAcquiredLotCandidates.has_partial_amount", "has_partial_amount(lot) = lot in table", f"has_partial_amount normalises to {show(t)[:160]}", loc(has.node) if has else loc(ci.node))
+    get = ci.methods.get("get_partial_amount")
+    se = SymExec(norm, norm.ctx_for(get, subst_locals=False))
+    rets = [p for p in se.run(get.body) if p.exit == "return"]
+    ok = bool(rets) and all(p.ret is not None and p.ret[0] == "old" and p.ret[1][0] == "fld" and p.ret[1][2].endswith("__acquired_lot_2_partial_amount") and p.ret[2] == ("sym", "acquired_lot") and not p.stores() and not [e for e in p.events if e[0] in ("del", "call") and "pop" in show(e[1])[:80]] for p in rets)
+    rep.check(ok, rule, AAM, get.qualname, "get_partial_amount(lot) reads table[lot] and changes nothing", f"get_partial_amount returns {[show(p.ret)[:120] for p in rets]} (stores: {[len(p.stores()) for p in rets]}): reading a lot's remaining amount must not alter or remove it (a second read would see the full lot again)", loc(get.node))
+    st = ci.methods.get("set_partial_amount")
+    se = SymExec(norm, norm.ctx_for(st, subst_locals=False))
+    paths = [p for p in se.run(st.body) if p.exit in ("fall", "return")]
+    ok = len(paths) == 1 and len(paths[0].stores()) == 1 and paths[0].stores()[0][2] == ("sym", "acquired_lot") and paths[0].stores()[0][3] == ("sym", "amount") and not paths[0].conds()
+    rep.check(ok, rule, AAM, st.qualname, "set_partial_amount(lot, amount): table[lot] = amount, unconditionally", f"set_partial_amount performs {[(show(e[2]), show(e[3])[:80]) for p in paths for e in p.stores()]} under {[show(c)[:60] for p in paths for c in p.conds()]}; expected table[lot] = amount (the remaining amount put back must replace the previous one)", loc(st.node))
+    cl = ci.methods.get("clear_partial_amount")
+    t = [unparse(s2) for s2 in cl.body] if cl else []
+    rep.check(t == ["self.set_partial_amount(acquired_lot, ZERO)"], rule, AAM, "AbstractAcquiredLotCandidates.clear_partial_amount", "clear_partial_amount(lot) = set_partial_amount(lot, ZERO)", f"clear_partial_amount is {t}", loc(cl.node) if cl else loc(ci.node))
